@@ -21,7 +21,9 @@ func sameMultiset(got, want []gow.Triple) bool {
 	if len(got) != len(want) {
 		return false
 	}
-	key := func(t gow.Triple) string { return fmt.Sprintf("%d/%d/%d/%d", t.M.Sequence, t.M.ChannelID, t.M.LogTime, len(t.M.Data)) }
+	key := func(t gow.Triple) string {
+		return fmt.Sprintf("%d/%d/%d/%d", t.M.Sequence, t.M.ChannelID, t.M.LogTime, len(t.M.Data))
+	}
 	a := make([]string, len(got))
 	b := make([]string, len(want))
 	for i := range got {
@@ -151,7 +153,12 @@ func c02Oracle(x *explore.Ctx, c *model.Content, cfg gow.Config, res *gow.Result
 	for _, t := range scan.Triples {
 		topics[t.C.Topic] = true
 	}
+	var topicList []string
 	for topic := range topics {
+		topicList = append(topicList, topic)
+	}
+	sort.Strings(topicList)
+	for _, topic := range topicList {
 		var want []gow.Triple
 		for _, t := range scan.Triples {
 			if t.C.Topic == topic {
